@@ -32,7 +32,8 @@ def cases(draw, tier="quick"):
     return dict(spec=spec, gradp=draw(st.booleans()), reactions=draw(st.booleans()), floor=draw(st.booleans()),
                 source=draw(st.sampled_from(["list", "plt_Y", "plt_IR"])),
                 out=draw(st.sampled_from(["explicit", "explicit", "default", "default_slash", "default_nochk"])),
-                sched=dict(exec=[draw(st.lists(st.integers(0, 7), max_size=4)) for _ in range(nlev)], lazy=draw(st.booleans())),
+                sched=dict(exec=[draw(st.lists(st.integers(0, 7), max_size=4)) for _ in range(nlev)],
+                           comp=[draw(st.lists(st.integers(0, 7), max_size=4)) for _ in range(nlev)], lazy=draw(st.booleans())),
                 how=draw(st.sampled_from(["api", "api", "cli"])))
 
 
